@@ -50,17 +50,17 @@ Definition ns_meta (fts : option b64) (fs : b64) : nsres :=
   | Some t => match int_round (fmul t fs) with Some n => NsOk n | None => NsInt end
   end.
 
-(* OnlineReader.ns:
+(* OnlineReader.ns  (isz = self.dtype.itemsize):
      int(self.file_bin.stat().st_size / self.dtype.itemsize / self.nc)
    (int/int true division is correctly rounded; for st_size < 2^53 that is the
    float division of the two conversions; float / int converts the int) *)
-Definition ns_online (nbytes nc : Z) : nsres :=
-  match py_int (fdiv (fdiv (of_Z nbytes) (of_Z 2)) (of_Z nc)) with
+Definition ns_online (isz nbytes nc : Z) : nsres :=
+  match py_int (fdiv (fdiv (of_Z nbytes) (of_Z isz)) (of_Z nc)) with
   | Some n => NsOk n | None => NsInt end.
 
 (* the `ns` property as seen by Reader.open, for either class *)
-Definition reader_ns (online : bool) (nbytes nc : Z) (fts : option b64) (fs : b64) : nsres :=
-  if online then ns_online nbytes nc else ns_meta fts fs.
+Definition reader_ns (online : bool) (isz nbytes nc : Z) (fts : option b64) (fs : b64) : nsres :=
+  if online then ns_online isz nbytes nc else ns_meta fts fs.
 
 Inductive outcome :=
   | Opened (ns nc : Z) (fts : option b64) (rewritten : bool)
@@ -70,31 +70,31 @@ Inductive outcome :=
   | TypeErr.      (* fileTimeSecs missing where Reader.ns needs it (offline Reader on the meta
                      file of a recording in progress): None * float *)
 
-(* np.memmap(file, dtype=int16, mode='r', shape=(ns, nc)):  mmap.mmap(fd, ns*nc*2)
+(* np.memmap(file, dtype=self.dtype, mode='r', shape=(ns, nc)):  mmap.mmap(fd, ns*nc*itemsize)
    raises when the length exceeds the file size, when the file is empty, or
    when the length is negative. *)
-Definition memmap_ok (nbytes ns nc : Z) : bool :=
-  (0 <? nbytes) && (0 <=? ns * nc * 2) && (ns * nc * 2 <=? nbytes).
+Definition memmap_ok (isz nbytes ns nc : Z) : bool :=
+  (0 <? nbytes) && (0 <=? ns * nc * isz) && (ns * nc * isz <=? nbytes).
 
-(* Reader.open, flat-binary branch (dtype int16: itemsize 2):
+(* Reader.open, flat-binary branch (isz = self.dtype.itemsize; 2 for the default int16):
      if self.nc * self.ns * itemsize != self.nbytes:
          ftsec = st_size // (itemsize * self.nc) / self.fs
          if self.meta is not None:
              if not self.ignore_warnings: _logger.warning(f"...{self.meta.get('fileSizeBytes')}...")   (cannot raise)
              self.meta["fileTimeSecs"] = ftsec
      self._raw = np.memmap(..., shape=(self.ns, self.nc)) *)
-Definition open_bin (online : bool) (nbytes nc : Z) (fts : option b64) (fs : b64) : outcome :=
-  match reader_ns online nbytes nc fts fs with
+Definition open_bin (online : bool) (isz nbytes nc : Z) (fts : option b64) (fs : b64) : outcome :=
+  match reader_ns online isz nbytes nc fts fs with
   | NsInt => IntError
   | NsType => TypeErr
   | NsOk ns0 =>
-      let mismatch := negb (nc * ns0 * 2 =? nbytes) in
-      let fts' := if mismatch then Some (fdiv (of_Z (nbytes / (2 * nc))) fs) else fts in
-      match reader_ns online nbytes nc fts' fs with
+      let mismatch := negb (nc * ns0 * isz =? nbytes) in
+      let fts' := if mismatch then Some (fdiv (of_Z (nbytes / (isz * nc))) fs) else fts in
+      match reader_ns online isz nbytes nc fts' fs with
       | NsInt => IntError
       | NsType => TypeErr
       | NsOk ns1 =>
-          if memmap_ok nbytes ns1 nc then Opened ns1 nc fts' mismatch else MmapError
+          if memmap_ok isz nbytes ns1 nc then Opened ns1 nc fts' mismatch else MmapError
       end
   end.
 
@@ -121,9 +121,9 @@ Definition open_cbin (chns chnc nc : Z) (fts : option b64) (fs : b64) : outcome 
 (* Reader.rl:  self.ns / self.fs *)
 Definition rl (ns : Z) (fs : b64) : b64 := fdiv (of_Z ns) fs.
 
-(* byte offset in the file of sample i, channel j of the C-ordered int16 memmap
-   of shape (ns, nc): what self._raw[i, j] dereferences (2 bytes from there) *)
-Definition byte_offset (nc i j : Z) : Z := 2 * (i * nc + j).
+(* byte offset in the file of sample i, channel j of the C-ordered memmap of shape
+   (ns, nc) and item size isz: what self._raw[i, j] dereferences (isz bytes from there) *)
+Definition byte_offset (isz nc i j : Z) : Z := isz * (i * nc + j).
 
 (* ------------------------------------------------------------------ *)
 (* The reader as a stateful object on a file whose size changes         *)
@@ -135,24 +135,25 @@ Definition byte_offset (nc i j : Z) : Z := 2 * (i * nc + j).
    file at every evaluation.  `open_at online cached cur ...` is Reader.open when the
    constructor saw `cached` bytes and the file now has `cur` bytes; it returns the outcome
    and meta.get('fileTimeSecs') afterwards (the rewrite happens before np.memmap can raise). *)
-Definition open_at (online : bool) (cached cur nc : Z) (fts : option b64) (fs : b64)
+Definition open_at (online : bool) (isz cached cur nc : Z) (fts : option b64) (fs : b64)
   : outcome * option b64 :=
-  match reader_ns online cur nc fts fs with
+  match reader_ns online isz cur nc fts fs with
   | NsInt => (IntError, fts)
   | NsType => (TypeErr, fts)
   | NsOk ns0 =>
-      let mismatch := negb (nc * ns0 * 2 =? cached) in
-      let fts' := if mismatch then Some (fdiv (of_Z (cur / (2 * nc))) fs) else fts in
-      match reader_ns online cur nc fts' fs with
+      let mismatch := negb (nc * ns0 * isz =? cached) in
+      let fts' := if mismatch then Some (fdiv (of_Z (cur / (isz * nc))) fs) else fts in
+      match reader_ns online isz cur nc fts' fs with
       | NsInt => (IntError, fts')
       | NsType => (TypeErr, fts')
       | NsOk ns1 =>
-          (if memmap_ok cur ns1 nc then Opened ns1 nc fts' mismatch else MmapError, fts')
+          (if memmap_ok isz cur ns1 nc then Opened ns1 nc fts' mismatch else MmapError, fts')
       end
   end.
 
 Record reader := mkReader {
   r_online : bool;            (* OnlineReader / Reader *)
+  r_isz : Z;                  (* self.dtype.itemsize (the `dtype` argument; 2 for the default int16) *)
   r_nc : Z;                   (* nSavedChans *)
   r_fs : b64;                 (* sampling rate of the meta file *)
   r_cached : Z;               (* self.nbytes *)
@@ -166,8 +167,8 @@ Inductive op :=
   | OpEnter.                  (* sr.__enter__(): opens only if not self.is_open *)
 
 Definition do_open (cur : Z) (r : reader) : reader * outcome :=
-  let '(o, fts') := open_at (r_online r) (r_cached r) cur (r_nc r) (r_fts r) (r_fs r) in
-  (mkReader (r_online r) (r_nc r) (r_fs r) (r_cached r) fts'
+  let '(o, fts') := open_at (r_online r) (r_isz r) (r_cached r) cur (r_nc r) (r_fts r) (r_fs r) in
+  (mkReader (r_online r) (r_isz r) (r_nc r) (r_fs r) (r_cached r) fts'
             (match o with Opened ns _ _ _ => Some ns | _ => r_mapped r end), o).
 
 (* one step: new (file size, reader), and the outcome of the open attempt if there was one *)
@@ -184,9 +185,9 @@ Definition step (w : Z * reader) (o : op) : (Z * reader) * option outcome :=
   end.
 
 (* Reader(file, open=...) / OnlineReader(file, open=...) on a file of `cur` bytes *)
-Definition construct (online : bool) (nc : Z) (fs : b64) (fts : option b64) (cur : Z) (do_op : bool)
+Definition construct (online : bool) (isz nc : Z) (fs : b64) (fts : option b64) (cur : Z) (do_op : bool)
   : (Z * reader) * option outcome :=
-  let r := mkReader online nc fs cur fts None in
+  let r := mkReader online isz nc fs cur fts None in
   if do_op then step (cur, r) OpOpen else ((cur, r), None).
 
 Fixpoint exec (w : Z * reader) (ops : list op) : list ((Z * reader) * option outcome) :=
@@ -196,10 +197,10 @@ Fixpoint exec (w : Z * reader) (ops : list op) : list ((Z * reader) * option out
   end.
 
 (* the whole history: state after the constructor, then after every operation *)
-Definition history (online : bool) (nc : Z) (fs : b64) (fts : option b64) (cur0 : Z) (do_op : bool)
+Definition history (online : bool) (isz nc : Z) (fs : b64) (fts : option b64) (cur0 : Z) (do_op : bool)
   (ops : list op) : list ((Z * reader) * option outcome) :=
-  let '(w, out) := construct online nc fs fts cur0 do_op in (w, out) :: exec w ops.
+  let '(w, out) := construct online isz nc fs fts cur0 do_op in (w, out) :: exec w ops.
 
 (* sr.ns evaluated now (OnlineReader: fresh stat; Reader: from the meta dictionary) *)
 Definition live_ns (cur : Z) (r : reader) : nsres :=
-  reader_ns (r_online r) cur (r_nc r) (r_fts r) (r_fs r).
+  reader_ns (r_online r) (r_isz r) cur (r_nc r) (r_fts r) (r_fs r).
